@@ -198,7 +198,9 @@ def ta_correspondence(chk, traces, shards=16, scripts=None, guards=False):
             stats['order_retries_ok'] = len(ok2)
             bad = [(n, it) for n, it in bad if n not in ok2]
     for n, it in bad:
-        chk.corr_broken('TA_Model:' + n, 'model and implementation differ on history %s: %s (segment, MStep/MPool/MGrant event-group index ...)' % (n, it))
+        sc = (byname.get(n) if scripts else None)
+        chk.corr_broken('TA_Model:' + n, 'model and implementation differ on history %s: %s (segment, MStep/MPool/MGrant event-group index ...)' % (n, it),
+                        replay={k: v for k, v in replay_of(sc, len(sc['events']) - 1).items() if not k.startswith('_')} if sc else None)
     stats['traces'] = len(names)
     stats['mismatching_traces'] = len(bad)
     if guards:
